@@ -403,7 +403,10 @@ def _clone(obj, memo):
         for k, v in d.items():
             nd[k] = _clone(v, memo)
         return new
-    new = copy.deepcopy(obj, memo)
+    try:
+        new = copy.deepcopy(obj, memo)
+    except Exception:  # noqa: BLE001 - an object that cannot be copied is kept by reference (compiled patterns, modules ...)
+        new = obj
     memo[i] = new
     return new
 
@@ -527,12 +530,12 @@ class LibraryGlobals:
         self.slots = uniq
 
     def capture(self):
-        return {f"{getattr(o, '__name__', o)}.{a}": copy.deepcopy(getattr(o, a)) for o, a in self.slots}
+        return {f"{getattr(o, '__name__', o)}.{a}": clone(getattr(o, a)) for o, a in self.slots}
 
     def restore(self, snap):
         for o, a in self.slots:
             cur = getattr(o, a)
-            val = copy.deepcopy(snap[f"{getattr(o, '__name__', o)}.{a}"])
+            val = clone(snap[f"{getattr(o, '__name__', o)}.{a}"])
             if isinstance(cur, dict):
                 cur.clear()
                 cur.update(val)
@@ -838,6 +841,11 @@ def _explore(spec: PoolSpec, state_cap, check_c10, st: Stats):
                     v09.append((hist + (op,), f"{show_op(spec, op)} -> {_short(got)} but on a never-used pool -> {_short(want)}"))
                 if op[0] in ("repr", "out.repr", "Df.at.repr") and len(v10) < 5:
                     v10.append((hist + (op,), f"{show_op(spec, op)} prints {_short(got)} but a freshly built copy prints {_short(want)}"))
+                if op[0] in ("keptP.at", "keptP.asexpr", "LD.read", "out.at") and len(v10) < 5:
+                    # objects handed out earlier (a component Partial, a LocatedDifferential, a returned expression)
+                    # must keep denoting what they denoted when they were handed out
+                    v10.append((hist + (op,), f"{show_op(spec, op)} -> {_short(got)}, but the object was handed out as "
+                                              f"something that answers {_short(want)}"))
             key = key_next
             if key in seen:
                 continue
@@ -887,7 +895,8 @@ def pool_specs(pid, tier):
     else:
         slot_sets = [("P1l", "Df2e"), ("P1e", "Df2l"), ("P1l", "P2l"), ("P1e", "Df2e")]
     for si, (sname, sterm) in enumerate(shared.items()):
-        use = pairs if tier == "thorough" else [pairs[(si * 5 + k * 7) % len(pairs)] for k in range(2)]
+        use = ([pairs[(si * 5 + k * 7) % len(pairs)] for k in range(2)] if tier != "thorough"
+               else [pairs[(si * 3 + k * 4) % len(pairs)] for k in range(11)])
         for pi, (c1, c2) in enumerate(use):
             slots = slot_sets[(si + pi) % len(slot_sets)]
             if sname in ENLARGING:
@@ -925,7 +934,7 @@ def pool_specs(pid, tier):
 def run_history(pid, tier, seed):
     run = Run(pid, tier, seed, "HISTORY-MC")
     specs = seeded_order(pool_specs(pid, tier), seed)
-    cap = 1500 if tier == "quick" else 20000
+    cap = 1500 if tier == "quick" else 8000
     check_c10 = pid == "C10"
 
     def worker(chunk):
